@@ -23,6 +23,7 @@ fn main() {
         "record-storage" => rt.block_on(storage_random::record()),
         "replay-cluster" => rt.block_on(cluster::replay()),
         "record-consistency" => rt.block_on(consistency::record()),
+        "record-converge" => rt.block_on(consistency::record_converge()),
         "replay-transfer" => rt.block_on(transfer::replay()),
         "transfer-garbage" => rt.block_on(transfer::garbage()),
         other => {
